@@ -295,7 +295,7 @@ func readCheck(bodies []string) string {
 func Scenarios(tier string) []run.Scenario {
 	l := 4
 	if tier == "thorough" {
-		l = 5
+		l = 6
 	}
 	bodies := Bodies(l)
 	var out []run.Scenario
